@@ -1,15 +1,19 @@
 (* Ignore.v — model of harper-core/src/ignored_lints/{mod.rs, lint_context.rs}, fat_token.rs and the
    parts of document.rs / token.rs / span.rs they call.  No proofs here.
 
-   LintContext::from_lint(lint, document) builds
+   LintContext::from_lint(lint, document) — as it is after the fix commits 8948350 (F12), 4550195 (F13)
+   and 483b7cf (C16-N1) — builds
        (lint_kind, suggestions, message, priority, tokens)
    — every field derives Hash, priority included — where `tokens` are the FAT tokens
-   (TokenKind with every field it carries, content chars; no position) of
-       prequel  = tokens intersecting  lint.span.with_len(2).pulled_by(2)   = [s-2, s)   (NONE when s < 2)
-       problem  = tokens intersecting  lint.span                            = [s, e)
-       sequel   = tokens intersecting  lint.span.with_len(2).pushed_by(2)   = [s+2, s+4) (from the START)
-   concatenated in this order (a token intersecting two windows appears twice).
-   IgnoredLints is a HashSet<u64> of DefaultHasher hashes of that structure. *)
+   (TokenKind, content chars; no position) of
+       problem  = tokens intersecting  lint.span                                         = [s, e)
+       prequel  = tokens intersecting  Span::new(lint.span.start.saturating_sub(2), lint.span.start) = [s-2 (sat), s)
+       sequel   = tokens intersecting  Span::new_with_len(lint.span.end, 2)              = [e, e+2)
+   concatenated prequel ++ problem ++ sequel (ONE flat list: the window boundaries are not recorded),
+   each fat token with Quote.twin_loc := None and Word(metadata) := Word(None).
+   IgnoredLints is a HashSet<u64> of DefaultHasher hashes of that structure.
+   The code BEFORE those commits (windows [s-2,s) only when s >= 2, [s,e), [s+2,s+4); nothing blanked)
+   lives in History/C14History.v as `context_old`. *)
 Require Import Base Suggestion.
 
 (* ---------- TokenKind (token_kind.rs), with every field that derives Hash ---------- *)
@@ -44,18 +48,25 @@ Fixpoint indices_from (i : nat) (ts : list token) (sp : span) : list nat :=
   end.
 Definition token_indices_intersecting (d : doc) (sp : span) : list nat := indices_from 0 (dtoks d) sp.
 
-(* the three windows of from_lint, with the span arithmetic the code uses *)
-Definition prequel_window (sp : span) : option span := pulled_by (with_len sp 2) 2.
-Definition sequel_window (sp : span) : span := push_by (with_len sp 2) 2.
+(* what the closure of from_lint does to a fat token before it enters the context:
+     if let Punctuation(Quote(quote)) = &mut fat.kind { quote.twin_loc = None; }     (8948350)
+     if let Word(metadata) = &mut fat.kind { *metadata = None; }                      (483b7cf) *)
+Definition blank_kind (k : tkind) : tkind :=
+  match k with KQuote _ => KQuote None | KWord _ => KWord None | k' => k' end.
+Definition blank_ftok (f : ftok) : ftok := (blank_kind (fst f), snd f).
 
-Definition context_indices (l : ilint) (d : doc) : list nat :=
+(* the windows of from_lint, with the span arithmetic the code uses *)
+(* Span::new(lint.span.start.saturating_sub(2), lint.span.start): Span::new panics when start > end (checked) *)
+Definition prequel_window (sp : span) : res span := span_new (sstart sp - 2) (sstart sp).
+(* Span::new_with_len(lint.span.end, 2) *)
+Definition sequel_window (sp : span) : span := span_new_with_len (send sp) 2.
+
+Definition context_indices (l : ilint) (d : doc) : res (list nat) :=
   let problem := token_indices_intersecting d (il_span l) in
-  let prequel := match prequel_window (il_span l) with
-                 | Some v => token_indices_intersecting d v
-                 | None => []                                   (* unwrap_or_default *)
-                 end in
+  do pw <- prequel_window (il_span l);
+  let prequel := token_indices_intersecting d pw in
   let sequel := token_indices_intersecting d (sequel_window (il_span l)) in
-  prequel ++ problem ++ sequel.
+  Ok (prequel ++ problem ++ sequel).
 
 (* .flat_map(|idx| document.get_token(idx)) *)
 Fixpoint get_tokens (ts : list token) (idxs : list nat) : list token :=
@@ -67,6 +78,9 @@ Fixpoint get_tokens (ts : list token) (idxs : list nat) : list token :=
 (* Token::to_fat: span.get_content(source) panics when the span does not lie in the source *)
 Definition to_fat (src : text) (t : token) : res ftok :=
   do c <- get_content (tspan t) src; Ok (tkd t, c).
+(* .map(|t| { let mut fat = t.to_fat(..); <blank>; fat }) *)
+Definition fat_blanked (src : text) (t : token) : res ftok :=
+  do f <- to_fat src t; Ok (blank_ftok f).
 
 Fixpoint map_res {A B} (f : A -> res B) (l : list A) : res (list B) :=
   match l with
@@ -75,7 +89,8 @@ Fixpoint map_res {A B} (f : A -> res B) (l : list A) : res (list B) :=
   end.
 
 Definition context_tokens (l : ilint) (d : doc) : res (list ftok) :=
-  map_res (to_fat (dsrc d)) (get_tokens (dtoks d) (context_indices l d)).
+  do idx <- context_indices l d;
+  map_res (fat_blanked (dsrc d)) (get_tokens (dtoks d) idx).
 
 Definition context (l : ilint) (d : doc) : res ctx :=
   do toks <- context_tokens l d;
@@ -134,8 +149,8 @@ Definition ig_insert (h : N) (s : ignored) : ignored := if ig_mem h s then s els
 Definition ig_append (s other : ignored) : ignored := fold_left (fun acc h => ig_insert h acc) other s.
 
 Section Hashed.
-  (* the context builder (LintContext::from_lint = `context`; `context_fixed` for the repaired code)
-     and DefaultHasher over the derived Hash of LintContext *)
+  (* the context builder (LintContext::from_lint = `context`; History/C14History.v instantiates it with
+     `context_old`) and DefaultHasher over the derived Hash of LintContext *)
   Variable ctxf : ilint -> doc -> res ctx.
   Variable hash : ctx -> N.
 
@@ -168,13 +183,11 @@ Section Hashed.
     end.
 End Hashed.
 
-(* ---------- the property's own notion of neighbourhood, and the repaired context ---------- *)
+(* ---------- the property's own notion of neighbourhood ---------- *)
 (* "the flagged text and the tokens within two characters of it": tokens intersecting the two
    characters before the span (clamped at the start of the text), the span, and the two characters
-   after its END; a quote's partner index is a position, not part of the token. *)
-Definition blank_kind (k : tkind) : tkind := match k with KQuote _ => KQuote None | k' => k' end.
-Definition blank_ftok (f : ftok) : ftok := (blank_kind (fst f), snd f).
-
+   after its END, as THREE lists; a token is its kind and its text — a quote's partner index is a
+   position and a word's dictionary metadata is a fact about the dictionary, not about the text. *)
 Definition before_window (sp : span) : span := mkspan (sstart sp - 2) (sstart sp).   (* saturating_sub *)
 Definition after_window (sp : span) : span := mkspan (send sp) (send sp + 2).
 
@@ -189,40 +202,24 @@ Definition nb_parts (l : ilint) (d : doc) : res (list ftok * list ftok * list ft
   do a <- window_tokens d (after_window (il_span l));
   Ok (map blank_ftok b, map blank_ftok p, map blank_ftok a).
 
+(* the same, flattened (what the code hashes: Proofs/IgnoreProofs.v, context_tokens_nb) *)
 Definition nb_tokens (l : ilint) (d : doc) : res (list ftok) :=
   do '(b, p, a) <- nb_parts l d; Ok (b ++ p ++ a).
 
-(* the context as it would be built after fixes/F12.diff + fixes/F13.diff *)
-Definition context_fixed (l : ilint) (d : doc) : res ctx :=
-  do toks <- nb_tokens l d;
-  Ok (mkctx (il_kind l) (il_sugg l) (il_msg l) (il_prio l) toks).
-
-(* F12 alone: the windows of the current code, twin_loc blanked *)
-Definition context_f12 (l : ilint) (d : doc) : res ctx :=
-  do toks <- context_tokens l d;
-  Ok (mkctx (il_kind l) (il_sugg l) (il_msg l) (il_prio l) (map blank_ftok toks)).
-
-(* F13 alone: the two-character neighbourhood as windows, twin_loc kept *)
 Definition nb_indices (l : ilint) (d : doc) : list nat :=
   token_indices_intersecting d (before_window (il_span l))
   ++ token_indices_intersecting d (il_span l)
   ++ token_indices_intersecting d (after_window (il_span l)).
-Definition context_f13 (l : ilint) (d : doc) : res ctx :=
-  do toks <- map_res (to_fat (dsrc d)) (get_tokens (dtoks d) (nb_indices l d));
-  Ok (mkctx (il_kind l) (il_sugg l) (il_msg l) (il_prio l) toks).
 
-(* ---------- editing a document somewhere else: tokens (and text) inserted in front ---------- *)
+(* ---------- the same document under another dictionary / after tokens were inserted elsewhere ---------- *)
+(* a document with everything removed that the context does not look at *)
+Definition blank_token (t : token) : token := mktok (tspan t) (blank_kind (tkd t)).
+Definition blank_doc (d : doc) : doc := mkdoc (dsrc d) (map blank_token (dtoks d)).
+
+(* a lint moved by k characters (text inserted in front) *)
 Definition shift_span (k : nat) (sp : span) : span := push_by sp k.
-Definition shift_token (k : nat) (t : token) : token := mktok (shift_span k (tspan t)) (tkd t).
 Definition shift_lint (k : nat) (l : ilint) : ilint :=
   mkilint (shift_span k (il_span l)) (il_kind l) (il_sugg l) (il_msg l) (il_prio l).
-(* what Document::match_quotes does to an already matched quote when `n` tokens are put in front *)
-Definition shift_twin (n : nat) (k : tkind) : tkind :=
-  match k with KQuote (Some i) => KQuote (Some (i + n)) | k' => k' end.
-Definition prepend_doc (pre_src : text) (pre_toks : list token) (d : doc) : doc :=
-  mkdoc (pre_src ++ dsrc d)
-        (pre_toks ++ map (fun t => mktok (shift_span (length pre_src) (tspan t))
-                                         (shift_twin (length pre_toks) (tkd t))) (dtoks d)).
 
 (* ---------- serde_json of IgnoredLints:  {"context_hashes":[h1,h2,...]}  ---------- *)
 (* export = serde_json::to_string: compact, the elements in the HashSet's iteration order (any order:
@@ -328,16 +325,12 @@ Definition import_into (s : ignored) (j : text) : option ignored :=
   match run_import j with Some o => Some (ig_append s o) | None => None end.
 
 (* ---------- driver entry points ---------- *)
-(* the four variants the implementation can follow: 0 = /repo as it is, 1 = fixes/F12.diff applied,
-   2 = fixes/F13.diff applied, 3 = both.  The harness determines the variant from the stored hashes. *)
-Definition context_v (v : nat) : ilint -> doc -> res ctx :=
-  match v with 0 => context | 1 => context_f12 | 2 => context_f13 | _ => context_fixed end.
-(* C: the token indices of the context (prequel ++ problem ++ sequel) *)
-Definition run_context_indices (v : nat) (l : ilint) (d : doc) : list nat :=
-  match v with 0 | 1 => context_indices l d | _ => nb_indices l d end.
+(* C: the token indices of the context (prequel ++ problem ++ sequel); None = a panic *)
+Definition run_context_indices (l : ilint) (d : doc) : option (list nat) :=
+  match context_indices l d with Ok i => Some i | Panic _ => None end.
 (* X: is the lint l2 of d2 ignored after ignoring l1 of d1 (hash = identity)?  None = a panic *)
-Definition run_same_context (v : nat) (l1 : ilint) (d1 : doc) (l2 : ilint) (d2 : doc) : option bool :=
-  match context_v v l1 d1, context_v v l2 d2 with
+Definition run_same_context (l1 : ilint) (d1 : doc) (l2 : ilint) (d2 : doc) : option bool :=
+  match context l1 d1, context l2 d2 with
   | Ok a, Ok b => Some (ctx_eqb a b)
   | _, _ => None
   end.
